@@ -1008,9 +1008,14 @@ def mpf_mod(s, t, prec, rnd=round_fast):
     tsign, tman, texp, tbc = t
     if ((not sman) and sexp) or ((not tman) and texp):
         return fnan
-    # Important special case: do nothing if t is larger
-    if tman and ssign == tsign and texp > sexp+sbc:
-        return mpf_pos(s, prec, rnd)
+    if not tman:
+        raise ZeroDivisionError
+    # Important special case: t is larger. Do nothing if the signs agree;
+    # with opposite signs s wraps around exactly once
+    if texp > sexp+sbc:
+        if ssign == tsign or not sman:
+            return mpf_pos(s, prec, rnd)
+        return mpf_add(s, t, prec, rnd)
     # Another important special case: this allows us to do e.g. x % 1.0
     # to find the fractional part of x, and it will work when x is huge.
     if tman == 1 and sexp > texp+tbc:
@@ -1018,7 +1023,12 @@ def mpf_mod(s, t, prec, rnd=round_fast):
     base = min(sexp, texp)
     sman = (-1)**ssign * sman
     tman = (-1)**tsign * tman
-    man = (sman << (sexp-base)) % (tman << (texp-base))
+    if sexp > texp:
+        # Reduce the power of two modulo t first, so that a huge
+        # dividend is never written out in full
+        man = (sman * pow(2, sexp-texp, abs(tman))) % tman
+    else:
+        man = sman % (tman << (texp-base))
     if man >= 0:
         sign = 0
     else:
